@@ -138,6 +138,16 @@ func runC18(c E1Case) (out core.Outcome) {
 				return
 			}
 			r.cls.Add("probe:blocking-writer-waits")
+			if c.LongWaitSec > 0 && td.call.Op.Ctx == "" {
+				// no context, room never comes, the channel stays open: the call waits, however long it takes
+				time.Sleep(time.Duration(c.LongWaitSec) * time.Second)
+				if td.call.End != 0 {
+					out.Violation = core.Viol("C18/blocking-call-did-not-wait", "%s in blocking mode (no context) met a full queue, waited, and returned (%d, %v) after less than %d s although no space became available and the channel is open", td.call.Op.Op, td.call.N, td.call.Err, c.LongWaitSec)
+					r.sweep(true)
+					return
+				}
+				r.cls.Add("probe:still-waiting-after-%ds", c.LongWaitSec)
+			}
 			// while that writer waits inside the enqueue, another waiting writer must stay cancellable
 			for _, t2 := range r.tasks {
 				td2, _ := t2.Data.(*e1TaskData)
@@ -297,11 +307,24 @@ func runC18(c E1Case) (out core.Outcome) {
 	return
 }
 
+// enumC18 (thorough tier only): one writer without a context waits on a full queue behind a stalled sender for more
+// than half a minute of real time (a time limit hidden in a context would not be touched by the clock redirection).
+func enumC18(emit func(E1Case)) {
+	if !core.Thorough() {
+		return
+	}
+	for _, entry := range []string{"write1", "writev"} {
+		emit(E1Case{Kind: "qblock", Queue: 1, Stall: "never", Probe: true, LongWaitSec: 31,
+			Tasks: []E1Task{{Role: "writer", Ops: []E1Op{{Op: entry, Sizes: []int{3}}, {Op: entry, Sizes: []int{3}}, {Op: entry, Sizes: []int{3}}}}}})
+	}
+}
+
 func TestC18(t *testing.T) {
 	core.Main(t, core.Prop[E1Case]{
 		ID:      "C18",
 		Gen:     genC18,
 		Run:     runC18,
+		Enum:    enumC18,
 		Summary: summarizeE1,
 	})
 }
